@@ -1,1 +1,384 @@
-//! C09 harnesses (not written yet).
+//! C09 — equality and ordering are numeric comparison of the unsigned values, across all
+//! implementations, word types and lengths (the shorter operand zero-extended).
+//!
+//! Oracle: the generators return arbitrary `Inv` states together with their raw storage
+//! `RawV { len, v }`; under `Inv` the unsigned value of the vector is `v`. For every pair
+//! `(a, b)` each of `== != < <= > >= partial_cmp` (and `cmp` where `Ord` exists, i.e. same
+//! type) must equal the comparison of the model values `val(a) ? val(b)`; every pairing is
+//! checked in both operand orders, which exercises both members of each
+//! delegating/reversing impl pair. Reflexivity, symmetry, transitivity, totality and the
+//! mutual consistency of PartialEq/PartialOrd/Ord follow from agreeing with `<` on naturals;
+//! the three-operand harnesses state them directly on the crate's operators as a cross-check.
+//!
+//! Cost notes (measured): the word re-chunking `get_int` (unsafe `align_to`, or an inner loop
+//! of `size_of(J)/size_of(I)` steps) dominates, and the single unwind bound of a harness
+//! applies to the outer word loop too. `Bvd ? Bvf` iterates `max(len(bvd) in BITS, words)`
+//! times, so its cost grows with the Bvd's bit length. Cheap pairings (same word type,
+//! Bvd x Bvd) decide all operators in one harness; expensive ones get one operator per harness.
+use crate::big::Big;
+use crate::nd;
+use crate::scopes::*;
+use bva::{Bit, BitVector, Bv, Bvd, Bvf};
+use std::cmp::Ordering;
+
+#[inline(always)]
+fn m_eq(o: Ordering) -> bool {
+    o == Ordering::Equal
+}
+#[inline(always)]
+fn m_ne(o: Ordering) -> bool {
+    o != Ordering::Equal
+}
+#[inline(always)]
+fn m_lt(o: Ordering) -> bool {
+    o == Ordering::Less
+}
+#[inline(always)]
+fn m_le(o: Ordering) -> bool {
+    o != Ordering::Greater
+}
+#[inline(always)]
+fn m_gt(o: Ordering) -> bool {
+    o == Ordering::Greater
+}
+#[inline(always)]
+fn m_ge(o: Ordering) -> bool {
+    o != Ordering::Less
+}
+
+/// `a ? b` for all seven operators against the model ordering `want` of (val(a), val(b)).
+macro_rules! ops_fwd {
+    ($a:ident, $b:ident, $want:expr) => {
+        let want: Ordering = $want;
+        assert!(($a == $b) == m_eq(want), "C09: a == b differs from val(a) == val(b)");
+        assert!(($a != $b) == m_ne(want), "C09: a != b differs from val(a) != val(b)");
+        assert!(($a < $b) == m_lt(want), "C09: a < b differs from val(a) < val(b)");
+        assert!(($a <= $b) == m_le(want), "C09: a <= b differs from val(a) <= val(b)");
+        assert!(($a > $b) == m_gt(want), "C09: a > b differs from val(a) > val(b)");
+        assert!(($a >= $b) == m_ge(want), "C09: a >= b differs from val(a) >= val(b)");
+        assert!($a.partial_cmp(&$b) == Some(want), "C09: a.partial_cmp(b) differs from the numeric ordering");
+    };
+}
+
+/// The same with the operands swapped (the other impl of the pair).
+macro_rules! ops_rev {
+    ($b:ident, $a:ident, $want:expr) => {
+        let want: Ordering = $want;
+        assert!(($b == $a) == m_eq(want), "C09: b == a differs from val(b) == val(a)");
+        assert!(($b != $a) == m_ne(want), "C09: b != a differs from val(b) != val(a)");
+        assert!(($b < $a) == m_lt(want), "C09: b < a differs from val(b) < val(a)");
+        assert!(($b <= $a) == m_le(want), "C09: b <= a differs from val(b) <= val(a)");
+        assert!(($b > $a) == m_gt(want), "C09: b > a differs from val(b) > val(a)");
+        assert!(($b >= $a) == m_ge(want), "C09: b >= a differs from val(b) >= val(a)");
+        assert!($b.partial_cmp(&$a) == Some(want), "C09: b.partial_cmp(a) differs from the numeric ordering");
+    };
+}
+
+/// Vacuity witnesses for symbolic lengths; `$k` is a number of bits (a word size of one
+/// operand) such that at least one operand can be longer than `$k` bits.
+macro_rules! wit_sym {
+    ($ra:ident, $rb:ident, $want:ident, $k:literal) => {
+        w!($ra.len != $rb.len && $want == Ordering::Equal && !$ra.v.is_zero(), "equal non-zero values of different lengths");
+        w!($ra.len < $rb.len && $want == Ordering::Greater, "the shorter operand has the greater value");
+        w!($ra.len == 0 || $rb.len == 0, "an empty operand");
+        w!($want != Ordering::Equal && $ra.v.trunc($k) == $rb.v.trunc($k), "unequal values that agree in their low word(s) and differ only above");
+        w!($ra.len >= $rb.len + $k || $rb.len >= $ra.len + $k, "lengths differ by at least a whole word");
+    };
+}
+
+/// Vacuity witnesses for concrete length pairs (only the contents are symbolic).
+macro_rules! wit_conc {
+    ($ra:ident, $rb:ident, $want:ident, $k:literal) => {
+        w!($want == Ordering::Equal && !$ra.v.is_zero(), "equal non-zero values");
+        w!($want == Ordering::Less, "a below b");
+        w!($want == Ordering::Greater, "a above b");
+        w!($want != Ordering::Equal && $ra.v.trunc($k) == $rb.v.trunc($k), "unequal values differing only above the low word");
+    };
+}
+
+/// Both operand orders, seven operators each (cheap pairings only).
+macro_rules! h_cmp {
+    ($name:ident, $unw:literal, $a:expr, $b:expr, $w:ident, $k:literal) => {
+        harness!($name, $unw, {
+            let (a, ra) = $a;
+            let (b, rb) = $b;
+            let want = ra.v.cmp(rb.v);
+            $w!(ra, rb, want, $k);
+            ops_fwd!(a, b, want);
+            ops_rev!(b, a, want.reverse());
+        });
+    };
+}
+
+/// One operand order, seven operators.
+macro_rules! h_cmp1 {
+    ($name:ident, $unw:literal, $a:expr, $b:expr, $w:ident, $k:literal) => {
+        harness!($name, $unw, {
+            let (a, ra) = $a;
+            let (b, rb) = $b;
+            let want = ra.v.cmp(rb.v);
+            $w!(ra, rb, want, $k);
+            ops_fwd!(a, b, want);
+        });
+    };
+}
+
+/// Same type, both operand orders (the two scopes differ), plus `Ord::cmp` both ways.
+macro_rules! h_cmp_ord2 {
+    ($name:ident, $unw:literal, $a:expr, $b:expr, $w:ident, $k:literal) => {
+        harness!($name, $unw, {
+            let (a, ra) = $a;
+            let (b, rb) = $b;
+            let want = ra.v.cmp(rb.v);
+            $w!(ra, rb, want, $k);
+            ops_fwd!(a, b, want);
+            ops_rev!(b, a, want.reverse());
+            assert!(a.cmp(&b) == want, "C09: a.cmp(b) differs from the numeric ordering");
+            assert!(b.cmp(&a) == want.reverse(), "C09: b.cmp(a) differs from the numeric ordering");
+        });
+    };
+}
+
+/// One operator, one operand order.
+macro_rules! h_op {
+    ($name:ident, $unw:literal, $a:expr, $b:expr, $w:ident, $k:literal, $op:tt, $m:ident) => {
+        harness!($name, $unw, {
+            let (a, ra) = $a;
+            let (b, rb) = $b;
+            let want = ra.v.cmp(rb.v);
+            $w!(ra, rb, want, $k);
+            assert!((a $op b) == $m(want), "C09: operator result differs from the numeric comparison of the values");
+        });
+    };
+}
+
+/// `partial_cmp`, one operand order.
+macro_rules! h_pc {
+    ($name:ident, $unw:literal, $a:expr, $b:expr, $w:ident, $k:literal) => {
+        harness!($name, $unw, {
+            let (a, ra) = $a;
+            let (b, rb) = $b;
+            let want = ra.v.cmp(rb.v);
+            $w!(ra, rb, want, $k);
+            assert!(a.partial_cmp(&b) == Some(want), "C09: a.partial_cmp(b) differs from the numeric ordering");
+        });
+    };
+}
+
+/// The seven operators of one pairing in one operand order, one harness each.
+macro_rules! h_ops7 {
+    ([$eq:ident, $ne:ident, $lt:ident, $le:ident, $gt:ident, $ge:ident, $pc:ident], $unw:literal, $a:expr, $b:expr, $w:ident, $k:literal) => {
+        h_op!($eq, $unw, $a, $b, $w, $k, ==, m_eq);
+        h_op!($ne, $unw, $a, $b, $w, $k, !=, m_ne);
+        h_op!($lt, $unw, $a, $b, $w, $k, <, m_lt);
+        h_op!($le, $unw, $a, $b, $w, $k, <=, m_le);
+        h_op!($gt, $unw, $a, $b, $w, $k, >, m_gt);
+        h_op!($ge, $unw, $a, $b, $w, $k, >=, m_ge);
+        h_pc!($pc, $unw, $a, $b, $w, $k);
+    };
+}
+
+/// Three operands, possibly of three different types: the order axioms stated on the
+/// crate's own operators (no model values involved in the assertions).
+macro_rules! h_order3 {
+    ($name:ident, $unw:literal, $a:expr, $b:expr, $c:expr) => {
+        harness!($name, $unw, {
+            let (a, ra) = $a;
+            let (b, rb) = $b;
+            let (c, rc) = $c;
+            w!(ra.v.cmp(rb.v) == Ordering::Less && rb.v.cmp(rc.v) == Ordering::Less && ra.len > rb.len && rb.len > rc.len, "strictly increasing chain with decreasing lengths");
+            w!(ra.v == rb.v && rb.v == rc.v && ra.len != rb.len && rb.len != rc.len && !ra.v.is_zero(), "three equal non-zero values of different lengths");
+            w!(ra.v.cmp(rb.v) == Ordering::Greater && rb.v.cmp(rc.v) == Ordering::Less, "no chain a <= b <= c");
+            let le_ab = a <= b;
+            let le_bc = b <= c;
+            let le_ac = a <= c;
+            let le_ba = b <= a;
+            let eq_ab = a == b;
+            let eq_ba = b == a;
+            let eq_bc = b == c;
+            let eq_ac = a == c;
+            let lt_ab = a < b;
+            let gt_ba = b > a;
+            assert!(!(le_ab && le_bc) || le_ac, "C09: <= is not transitive");
+            assert!(le_ab || le_ba, "C09: <= is not total");
+            assert!((le_ab && le_ba) == eq_ab, "C09: a <= b && b <= a differs from a == b");
+            assert!(eq_ab == eq_ba, "C09: == is not symmetric");
+            assert!(!(eq_ab && eq_bc) || eq_ac, "C09: == is not transitive");
+            assert!(lt_ab == gt_ba, "C09: a < b differs from b > a");
+            assert!(lt_ab == (le_ab && !eq_ab), "C09: < differs from <= and !=");
+            assert!(a.partial_cmp(&b).map(|o| o.reverse()) == b.partial_cmp(&a), "C09: partial_cmp is not antisymmetric");
+            assert!(c == c && c <= c, "C09: not reflexive");
+        });
+    };
+}
+
+/// Same type, symmetric scopes: `== != partial_cmp cmp` (the implemented methods).
+macro_rules! h_eqpc {
+    ($name:ident, $unw:literal, $a:expr, $b:expr, $w:ident, $k:literal) => {
+        harness!($name, $unw, {
+            let (a, ra) = $a;
+            let (b, rb) = $b;
+            let want = ra.v.cmp(rb.v);
+            $w!(ra, rb, want, $k);
+            assert!((a == b) == m_eq(want), "C09: a == b differs from val(a) == val(b)");
+            assert!((a != b) == m_ne(want), "C09: a != b differs from val(a) != val(b)");
+            assert!(a.partial_cmp(&b) == Some(want), "C09: a.partial_cmp(b) differs from the numeric ordering");
+            assert!(a.cmp(&b) == want, "C09: a.cmp(b) differs from the numeric ordering");
+        });
+    };
+}
+
+/// `== != partial_cmp` for operands of different types (no `Ord`).
+macro_rules! h_eqpc1 {
+    ($name:ident, $unw:literal, $a:expr, $b:expr, $w:ident, $k:literal) => {
+        harness!($name, $unw, {
+            let (a, ra) = $a;
+            let (b, rb) = $b;
+            let want = ra.v.cmp(rb.v);
+            $w!(ra, rb, want, $k);
+            assert!((a == b) == m_eq(want), "C09: a == b differs from val(a) == val(b)");
+            assert!((a != b) == m_ne(want), "C09: a != b differs from val(a) != val(b)");
+            assert!(a.partial_cmp(&b) == Some(want), "C09: a.partial_cmp(b) differs from the numeric ordering");
+        });
+    };
+}
+
+/// `< <= > >=`, one operand order.
+macro_rules! h_rel {
+    ($name:ident, $unw:literal, $a:expr, $b:expr, $w:ident, $k:literal) => {
+        harness!($name, $unw, {
+            let (a, ra) = $a;
+            let (b, rb) = $b;
+            let want = ra.v.cmp(rb.v);
+            $w!(ra, rb, want, $k);
+            assert!((a < b) == m_lt(want), "C09: a < b differs from val(a) < val(b)");
+            assert!((a <= b) == m_le(want), "C09: a <= b differs from val(a) <= val(b)");
+            assert!((a > b) == m_gt(want), "C09: a > b differs from val(a) > val(b)");
+            assert!((a >= b) == m_ge(want), "C09: a >= b differs from val(a) >= val(b)");
+        });
+    };
+}
+
+// ---- Bvf x Bvf, same type (PartialEq, PartialOrd, Ord); symmetric scopes ---------------------
+h_eqpc!(c09_q_eqpc_f8x2_f8x2, 4, f8x2(anylen(16)), f8x2(anylen(16)), wit_sym, 8);
+h_rel!(c09_q_rel_f8x2_f8x2, 4, f8x2(anylen(16)), f8x2(anylen(16)), wit_sym, 8);
+h_eqpc!(c09_q_eqpc_f8x3_f8x3, 5, f8x3(anylen(24)), f8x3(anylen(24)), wit_sym, 8);
+h_rel!(c09_q_rel_f8x3_f8x3, 5, f8x3(anylen(24)), f8x3(anylen(24)), wit_sym, 8);
+h_eqpc!(c09_q_eqpc_f16x2_f16x2, 4, f16x2(anylen(32)), f16x2(anylen(32)), wit_sym, 16);
+h_rel!(c09_q_rel_f16x2_f16x2, 4, f16x2(anylen(32)), f16x2(anylen(32)), wit_sym, 16);
+h_eqpc!(c09_q_eqpc_f64x2_f64x2, 4, f64x2(anylen(128)), f64x2(anylen(128)), wit_sym, 64);
+h_rel!(c09_q_rel_f64x2_f64x2, 4, f64x2(anylen(128)), f64x2(anylen(128)), wit_sym, 64);
+h_eqpc!(c09_t_eqpc_f32x2_f32x2, 4, f32x2(anylen(64)), f32x2(anylen(64)), wit_sym, 32);
+h_rel!(c09_t_rel_f32x2_f32x2, 4, f32x2(anylen(64)), f32x2(anylen(64)), wit_sym, 32);
+h_eqpc!(c09_t_eqpc_f64x3_f64x3, 5, f64x3(anylen(192)), f64x3(anylen(192)), wit_sym, 64);
+h_rel!(c09_t_rel_f64x3_f64x3, 5, f64x3(anylen(192)), f64x3(anylen(192)), wit_sym, 64);
+h_eqpc!(c09_t_eqpc_f128x2_f128x2, 4, f128x2(anylen(256)), f128x2(anylen(256)), wit_sym, 128);
+h_rel!(c09_t_rel_f128x2_f128x2, 4, f128x2(anylen(256)), f128x2(anylen(256)), wit_sym, 128);
+h_eqpc!(c09_t_eqpc_fuszx2_fuszx2, 4, fuszx2(anylen(128)), fuszx2(anylen(128)), wit_sym, 64);
+h_rel!(c09_t_rel_fuszx2_fuszx2, 4, fuszx2(anylen(128)), fuszx2(anylen(128)), wit_sym, 64);
+// same word type, different word count: both operand orders
+h_cmp1!(c09_q_cmp_f8x2_f8x3, 5, f8x2(anylen(16)), f8x3(anylen(24)), wit_sym, 8);
+h_cmp1!(c09_q_cmp_f8x3_f8x2, 5, f8x3(anylen(24)), f8x2(anylen(16)), wit_sym, 8);
+h_eqpc1!(c09_t_eqpc_f64x2_f64x3, 5, f64x2(anylen(128)), f64x3(anylen(192)), wit_sym, 64);
+h_rel!(c09_t_rel_f64x2_f64x3, 5, f64x2(anylen(128)), f64x3(anylen(192)), wit_sym, 64);
+h_eqpc1!(c09_t_eqpc_f64x3_f64x2, 5, f64x3(anylen(192)), f64x2(anylen(128)), wit_sym, 64);
+h_rel!(c09_t_rel_f64x3_f64x2, 5, f64x3(anylen(192)), f64x2(anylen(128)), wit_sym, 64);
+
+// ---- Bvf x Bvf, different word types: one operator per harness ---------------------------------
+// (unwind = max(outer word loop over the wider length in words of the RIGHT operand's type,
+//  inner re-chunking loop of the left operand) + 2; `==` and `partial_cmp` quick, rest thorough)
+h_ops7!([c09_q_eq_f8x3_f16x2, c09_t_ne_f8x3_f16x2, c09_t_lt_f8x3_f16x2, c09_t_le_f8x3_f16x2, c09_t_gt_f8x3_f16x2, c09_t_ge_f8x3_f16x2, c09_q_pc_f8x3_f16x2],
+    4, f8x3(anylen(24)), f16x2(anylen(32)), wit_sym, 8);
+h_ops7!([c09_q_eq_f16x2_f8x3, c09_t_ne_f16x2_f8x3, c09_t_lt_f16x2_f8x3, c09_t_le_f16x2_f8x3, c09_t_gt_f16x2_f8x3, c09_t_ge_f16x2_f8x3, c09_q_pc_f16x2_f8x3],
+    6, f16x2(anylen(32)), f8x3(anylen(24)), wit_sym, 8);
+h_ops7!([c09_q_eq_f16x2_f64x2, c09_t_ne_f16x2_f64x2, c09_t_lt_f16x2_f64x2, c09_t_le_f16x2_f64x2, c09_t_gt_f16x2_f64x2, c09_t_ge_f16x2_f64x2, c09_q_pc_f16x2_f64x2],
+    6, f16x2(anylen(32)), f64x2(anylen(128)), wit_sym, 16);
+h_ops7!([c09_q_eq_f64x2_f16x2, c09_t_ne_f64x2_f16x2, c09_t_lt_f64x2_f16x2, c09_t_le_f64x2_f16x2, c09_t_gt_f64x2_f16x2, c09_t_ge_f64x2_f16x2, c09_q_pc_f64x2_f16x2],
+    10, f64x2(anylen(128)), f16x2(anylen(32)), wit_sym, 16);
+h_ops7!([c09_q_eq_f8x2_f64x2, c09_t_ne_f8x2_f64x2, c09_t_lt_f8x2_f64x2, c09_t_le_f8x2_f64x2, c09_t_gt_f8x2_f64x2, c09_t_ge_f8x2_f64x2, c09_q_pc_f8x2_f64x2],
+    9, f8x2(anylen(16)), f64x2(anylen(128)), wit_sym, 8);
+h_ops7!([c09_t_eq_f64x2_f8x2, c09_t_ne_f64x2_f8x2, c09_t_lt_f64x2_f8x2, c09_t_le_f64x2_f8x2, c09_t_gt_f64x2_f8x2, c09_t_ge_f64x2_f8x2, c09_t_pc_f64x2_f8x2],
+    18, f64x2(anylen(128)), f8x2(anylen(16)), wit_sym, 8);
+h_op!(c09_t_eq_f32x2_f64x1, 4, f32x2(anylen(64)), f64x1(anylen(64)), wit_sym, 32, ==, m_eq);
+h_pc!(c09_t_pc_f64x1_f32x2, 4, f64x1(anylen(64)), f32x2(anylen(64)), wit_sym, 32);
+h_op!(c09_t_eq_f64x3_f128x2, 5, f64x3(anylen(192)), f128x2(anylen(256)), wit_sym, 64, ==, m_eq);
+h_pc!(c09_t_pc_f128x2_f64x3, 6, f128x2(anylen(256)), f64x3(anylen(192)), wit_sym, 64);
+
+// ---- Bvd x Bvd (PartialEq, PartialOrd, Ord), with spare words: word loops, cheap ----------------
+h_cmp_ord2!(c09_q_ord_bvd2_bvd3, 5, bvd2(anylen(128)), bvd3(anylen(192)), wit_sym, 64);
+h_cmp_ord2!(c09_q_ord_bvd1_bvd2, 4, bvd1(anylen(64)), bvd2(anylen(128)), wit_sym, 8);
+h_cmp_ord2!(c09_q_ord_bvd3_bvd3, 5, bvd3(anylen(192)), bvd3(anylen(192)), wit_sym, 64);
+h_cmp_ord2!(c09_t_ord_bvd4_bvd1, 6, bvd4(anylen(256)), bvd1(anylen(64)), wit_sym, 64);
+h_cmp_ord2!(c09_t_ord_bvd2_bvd2, 4, bvd2(anylen(128)), bvd2(anylen(128)), wit_sym, 64);
+
+// ---- Bvd x Bvf and Bvf x Bvd (the latter delegates and reverses) --------------------------------
+// The loop runs max(len(bvd) in bits, words) times. Symbolic short Bvd lengths (spare word
+// always present) against every Bvf length ...
+h_ops7!([c09_q_eq_bvd2s_f64x2, c09_t_ne_bvd2s_f64x2, c09_t_lt_bvd2s_f64x2, c09_t_le_bvd2s_f64x2, c09_t_gt_bvd2s_f64x2, c09_t_ge_bvd2s_f64x2, c09_q_pc_bvd2s_f64x2],
+    12, bvd2(anylen(10)), f64x2(anylen(128)), wit_sym, 8);
+h_ops7!([c09_q_eq_f64x2_bvd2s, c09_t_ne_f64x2_bvd2s, c09_t_lt_f64x2_bvd2s, c09_t_le_f64x2_bvd2s, c09_t_gt_f64x2_bvd2s, c09_t_ge_f64x2_bvd2s, c09_q_pc_f64x2_bvd2s],
+    12, f64x2(anylen(128)), bvd2(anylen(10)), wit_sym, 8);
+h_ops7!([c09_q_eq_bvd1s_f8x3, c09_t_ne_bvd1s_f8x3, c09_t_lt_bvd1s_f8x3, c09_t_le_bvd1s_f8x3, c09_t_gt_bvd1s_f8x3, c09_t_ge_bvd1s_f8x3, c09_q_pc_bvd1s_f8x3],
+    12, bvd1(anylen(10)), f8x3(anylen(24)), wit_sym, 8);
+h_ops7!([c09_q_eq_f8x3_bvd1s, c09_t_ne_f8x3_bvd1s, c09_t_lt_f8x3_bvd1s, c09_t_le_f8x3_bvd1s, c09_t_gt_f8x3_bvd1s, c09_t_ge_f8x3_bvd1s, c09_q_pc_f8x3_bvd1s],
+    12, f8x3(anylen(24)), bvd1(anylen(10)), wit_sym, 8);
+// ... concrete long length pairs (contents symbolic): Bvd longer than the Bvf by whole words
+// and vice versa, lengths on both sides of a word boundary ...
+h_op!(c09_q_eq_bvd3c129_f64x2c128, 131, bvd3(129), f64x2(128), wit_conc, 64, ==, m_eq);
+h_pc!(c09_q_pc_bvd3c129_f64x2c128, 131, bvd3(129), f64x2(128), wit_conc, 64);
+h_op!(c09_q_eq_f64x2c128_bvd3c129, 131, f64x2(128), bvd3(129), wit_conc, 64, ==, m_eq);
+h_pc!(c09_q_pc_f64x2c128_bvd3c129, 131, f64x2(128), bvd3(129), wit_conc, 64);
+h_op!(c09_q_eq_bvd2c64_f64x3c192, 66, bvd2(64), f64x3(192), wit_conc, 64, ==, m_eq);
+h_pc!(c09_q_pc_bvd2c64_f64x3c192, 66, bvd2(64), f64x3(192), wit_conc, 64);
+h_op!(c09_t_lt_bvd3c129_f64x2c128, 131, bvd3(129), f64x2(128), wit_conc, 64, <, m_lt);
+h_op!(c09_t_ge_f64x2c128_bvd3c129, 131, f64x2(128), bvd3(129), wit_conc, 64, >=, m_ge);
+h_op!(c09_t_eq_bvd2c65_f16x2c32, 67, bvd2(65), f16x2(32), wit_conc, 16, ==, m_eq);
+h_pc!(c09_t_pc_bvd2c65_f16x2c32, 67, bvd2(65), f16x2(32), wit_conc, 16);
+h_pc!(c09_t_pc_f64x3c192_bvd2c64, 66, f64x3(192), bvd2(64), wit_conc, 64);
+// ... and symbolic Bvd lengths across a word boundary (thorough only: several minutes each).
+h_op!(c09_t_eq_bvd2m_f64x2, 68, bvd2(anylen(66)), f64x2(anylen(128)), wit_sym, 64, ==, m_eq);
+h_pc!(c09_t_pc_bvd2m_f64x2, 68, bvd2(anylen(66)), f64x2(anylen(128)), wit_sym, 64);
+h_pc!(c09_t_pc_f64x2_bvd2m, 68, f64x2(anylen(128)), bvd2(anylen(66)), wit_sym, 64);
+
+// ---- Bv x Bv, Bv x Bvd, Bvd x Bv where both sides are heap vectors (word loops, cheap) ----------
+h_cmp_ord2!(c09_q_ord_bvdyn2_bvdyn3, 5, bvdyn2(anylen(128)), bvdyn3(anylen(192)), wit_sym, 64);
+h_cmp!(c09_q_cmp_bvdyn2_bvd3, 5, bvdyn2(anylen(128)), bvd3(anylen(192)), wit_sym, 64);
+h_cmp!(c09_t_cmp_bvdyn3_bvd1, 5, bvdyn3(anylen(192)), bvd1(anylen(64)), wit_sym, 64);
+// ---- Bv inline x Bv inline, Bv inline x Bvf<u64,N> (same word type) ------------------------------
+h_eqpc!(c09_q_eqpc_bvfix_bvfix, 4, bvfix(anylen(128)), bvfix(anylen(128)), wit_sym, 64);
+h_rel!(c09_q_rel_bvfix_bvfix, 4, bvfix(anylen(128)), bvfix(anylen(128)), wit_sym, 64);
+h_eqpc1!(c09_q_eqpc_bvfix_f64x2, 4, bvfix(anylen(128)), f64x2(anylen(128)), wit_sym, 64);
+h_rel!(c09_q_rel_bvfix_f64x2, 4, bvfix(anylen(128)), f64x2(anylen(128)), wit_sym, 64);
+h_eqpc1!(c09_q_eqpc_f64x2_bvfix, 4, f64x2(anylen(128)), bvfix(anylen(128)), wit_sym, 64);
+h_rel!(c09_q_rel_f64x2_bvfix, 4, f64x2(anylen(128)), bvfix(anylen(128)), wit_sym, 64);
+h_eqpc1!(c09_t_eqpc_bvfix_f64x3, 5, bvfix(anylen(128)), f64x3(anylen(192)), wit_sym, 64);
+h_rel!(c09_t_rel_f64x3_bvfix, 5, f64x3(anylen(192)), bvfix(anylen(128)), wit_sym, 64);
+// ---- Bv inline x narrower Bvf (re-chunking; Bvf x Bv delegates to Bv x Bvf) -----------------------
+h_ops7!([c09_q_eq_bvfix_f8x2, c09_t_ne_bvfix_f8x2, c09_t_lt_bvfix_f8x2, c09_t_le_bvfix_f8x2, c09_t_gt_bvfix_f8x2, c09_t_ge_bvfix_f8x2, c09_q_pc_bvfix_f8x2],
+    18, bvfix(anylen(128)), f8x2(anylen(16)), wit_sym, 8);
+h_ops7!([c09_q_eq_f8x2_bvfix, c09_t_ne_f8x2_bvfix, c09_t_lt_f8x2_bvfix, c09_t_le_f8x2_bvfix, c09_t_gt_f8x2_bvfix, c09_t_ge_f8x2_bvfix, c09_q_pc_f8x2_bvfix],
+    18, f8x2(anylen(16)), bvfix(anylen(128)), wit_sym, 8);
+h_op!(c09_t_eq_bvfix_f16x2, 10, bvfix(anylen(128)), f16x2(anylen(32)), wit_sym, 16, ==, m_eq);
+h_pc!(c09_t_pc_f16x2_bvfix, 10, f16x2(anylen(32)), bvfix(anylen(128)), wit_sym, 16);
+// ---- mixed storage modes: Bv inline x Bv heap, Bv inline x Bvd, Bv heap x Bvf (bit-length loops) --
+h_ops7!([c09_q_eq_bvfix_bvdyn2s, c09_t_ne_bvfix_bvdyn2s, c09_t_lt_bvfix_bvdyn2s, c09_t_le_bvfix_bvdyn2s, c09_t_gt_bvfix_bvdyn2s, c09_t_ge_bvfix_bvdyn2s, c09_q_pc_bvfix_bvdyn2s],
+    12, bvfix(anylen(128)), bvdyn2(anylen(10)), wit_sym, 8);
+h_ops7!([c09_q_eq_bvdyn2s_bvfix, c09_t_ne_bvdyn2s_bvfix, c09_t_lt_bvdyn2s_bvfix, c09_t_le_bvdyn2s_bvfix, c09_t_gt_bvdyn2s_bvfix, c09_t_ge_bvdyn2s_bvfix, c09_q_pc_bvdyn2s_bvfix],
+    12, bvdyn2(anylen(10)), bvfix(anylen(128)), wit_sym, 8);
+h_ops7!([c09_q_eq_bvfix_bvd1s, c09_t_ne_bvfix_bvd1s, c09_t_lt_bvfix_bvd1s, c09_t_le_bvfix_bvd1s, c09_t_gt_bvfix_bvd1s, c09_t_ge_bvfix_bvd1s, c09_q_pc_bvfix_bvd1s],
+    12, bvfix(anylen(128)), bvd1(anylen(10)), wit_sym, 8);
+h_ops7!([c09_q_eq_bvd1s_bvfix, c09_t_ne_bvd1s_bvfix, c09_t_lt_bvd1s_bvfix, c09_t_le_bvd1s_bvfix, c09_t_gt_bvd1s_bvfix, c09_t_ge_bvd1s_bvfix, c09_q_pc_bvd1s_bvfix],
+    12, bvd1(anylen(10)), bvfix(anylen(128)), wit_sym, 8);
+h_ops7!([c09_q_eq_bvdyn2s_f64x2, c09_t_ne_bvdyn2s_f64x2, c09_t_lt_bvdyn2s_f64x2, c09_t_le_bvdyn2s_f64x2, c09_t_gt_bvdyn2s_f64x2, c09_t_ge_bvdyn2s_f64x2, c09_q_pc_bvdyn2s_f64x2],
+    12, bvdyn2(anylen(10)), f64x2(anylen(128)), wit_sym, 8);
+h_ops7!([c09_q_eq_f16x2_bvdyn1s, c09_t_ne_f16x2_bvdyn1s, c09_t_lt_f16x2_bvdyn1s, c09_t_le_f16x2_bvdyn1s, c09_t_gt_f16x2_bvdyn1s, c09_t_ge_f16x2_bvdyn1s, c09_q_pc_f16x2_bvdyn1s],
+    12, f16x2(anylen(32)), bvdyn1(anylen(10)), wit_sym, 8);
+h_op!(c09_q_eq_bvfix_c128_bvdyn3_c129, 131, bvfix(128), bvdyn3(129), wit_conc, 64, ==, m_eq);
+h_pc!(c09_q_pc_bvdyn3_c129_bvfix_c128, 131, bvdyn3(129), bvfix(128), wit_conc, 64);
+h_pc!(c09_t_pc_bvfix_c128_bvd3_c190, 192, bvfix(128), bvd3(190), wit_conc, 64);
+
+// ---- three operands -----------------------------------------------------------------------------
+h_order3!(c09_q_order3_f8x2, 4, f8x2(anylen(16)), f8x2(anylen(16)), f8x2(anylen(16)));
+h_order3!(c09_q_order3_bvd, 5, bvd3(anylen(192)), bvd2(anylen(128)), bvd1(anylen(64)));
+h_order3!(c09_q_order3_bv, 5, bvdyn3(anylen(192)), bvdyn2(anylen(128)), bvdyn1(anylen(64)));
+h_order3!(c09_t_order3_mixed, 10, f64x2(anylen(128)), bvd1(anylen(8)), bvfix(anylen(128)));
